@@ -239,7 +239,6 @@ pub open spec fn qok_vamm_underlying_price(q: QuerierWrapper, vamm: Seq<char>) -
 pub open spec fn qok_vamm_over_fluctuation(q: QuerierWrapper, vamm: Seq<char>, d: Direction, amount: Uint128) -> bool { query_ok::<bool>(q, smart(vamm, Payload::VammQOverFluctuation { direction: d, base_asset_amount: amount })) }
 pub open spec fn qok_insurance_is_vamm(q: QuerierWrapper, insurance: Seq<char>, vamm: Seq<char>) -> bool { query_ok::<VammResponse>(q, smart(insurance, Payload::FundQIsVamm { vamm })) }
 // cosmwasm_std::BalanceResponse / cw20::BalanceResponse / cw20::Cw20QueryMsg (dependency types)
-pub struct BalanceResponse { pub amount: Coin }
 pub struct CW20BalanceResponse { pub balance: Uint128 }
 pub enum Cw20QueryMsg { Balance { address: String }, TokenInfo {} }
 pub struct TokenInfoResponse { pub decimals: u8 }   // cw20::TokenInfoResponse: only the field the repository reads
